@@ -230,6 +230,7 @@ def laws(rng, tier, ctx):
             nf += 1
             yield x
             if nf >= 30:
+                count = max(count, nf)
                 break
         else:
             count = x
